@@ -33,10 +33,13 @@ SetEq(x, y) == Range(x) = Range(y)
 
 SameWalk(j, k) == j >= 1 /\ Trace[j].w = Trace[k].w /\ Trace[j].n + 1 = Trace[k].n
 
+(* exactly the statement of C01: same non-empty sharing key, disjoint (protocol, port) sets, and both   *)
+(* Cluster or identical pod selectors                                                                  *)
 StatusShareOK(x, y) ==
   /\ x.spec.share # "" /\ x.spec.share = y.spec.share
   /\ x.spec.ports \cap y.spec.ports = {}
-  /\ BackendKey(x.spec) = BackendKey(y.spec)
+  /\ \/ (x.spec.etp = "Cluster" /\ y.spec.etp = "Cluster")
+     \/ x.spec.sel = y.spec.sel
 
 (* the statuses of s and every other load balancer are pairwise allowed     *)
 ShareConsistent(a, s) ==
